@@ -373,6 +373,15 @@ func (tb *TB) Eq(a, b *Term) *Term {
 			return tb.Not(a)
 		}
 	}
+	// (= (ite c x y) k) with literals: push the comparison inside
+	if a.Sort == SInt {
+		for _, p := range [][2]*Term{{a, b}, {b, a}} {
+			it, k := p[0], p[1]
+			if it.Op == "ite" && k.Op == "int" && (it.Args[1].Op == "int" || it.Args[2].Op == "int") {
+				return tb.Ite(it.Args[0], tb.Eq(it.Args[1], k), tb.Eq(it.Args[2], k))
+			}
+		}
+	}
 	// base+k vs base+j
 	if a.Sort == SInt {
 		ba, ka := splitOffset(a)
@@ -420,6 +429,18 @@ func (tb *TB) Ite(c, a, b *Term) *Term {
 		}
 		if a.IsFalse() && b.IsTrue() {
 			return tb.Not(c)
+		}
+		if a.IsTrue() {
+			return tb.Or(c, b)
+		}
+		if a.IsFalse() {
+			return tb.And(tb.Not(c), b)
+		}
+		if b.IsTrue() {
+			return tb.Or(tb.Not(c), a)
+		}
+		if b.IsFalse() {
+			return tb.And(c, a)
 		}
 	}
 	return tb.intern(&Term{Op: "ite", Args: []*Term{c, a, b}, Sort: a.Sort})
